@@ -6,7 +6,9 @@ package gobeansdb
 import (
 	"fmt"
 	"path/filepath"
+	"time"
 
+	"github.com/douban/gobeansdb/cmem"
 	"github.com/douban/gobeansdb/store"
 	"verif/lincheck"
 	"verif/ref"
@@ -26,6 +28,7 @@ var vfTargetedKinds = []string{
 	"overwrite-while-reader-holds-old-position",
 	"delete-while-reader-holds-position",
 	"two-writers-same-key-interleaved-append-tree",
+	"flush-frees-record-between-publish-and-accounting", // appender parked right after its record became visible in the write buffer; a flush already under way writes and frees it
 }
 
 func vfC04Targeted(env *vfc.Env, id, kind string, r *ref.Rand) {
@@ -180,10 +183,50 @@ func vfC04Targeted(env *vfc.Env, id, kind string, r *ref.Rand) {
 		wait(1) // the reader is not blocked by the write lock
 		t.Release()
 		wait(2)
+	case "flush-frees-record-between-publish-and-accounting":
+		// The flusher takes the store lock only briefly and then works on the
+		// chunk alone; a record appended meanwhile is visible to it at once.
+		main.set(key2, "random", 80) // something to flush, so that the flusher goes on
+		tf := sched.AddTrap("flusher", "flusher", "data.flush.beforeWrite", 1)
+		spawn(1, "flusher", func(c *vfClient) { flush() })
+		if !tf.WaitParked(vfWatchdog) {
+			inconc("flusher never reached the trap")
+			break
+		}
+		ta := sched.AddTrap("appender", "appender", "data.append.afterPublish", 1)
+		spawn(2, "appender", func(c *vfClient) { c.set(key, "random", size) })
+		if !ta.WaitParked(vfWatchdog) {
+			inconc("appender never reached the trap")
+			break
+		}
+		tf.Release() // writes both records, detaches and frees them, then waits for the store lock
+		freed := false
+		for i := 0; i < 20000 && !freed; i++ {
+			if cfg.BodyInC == 0 {
+				n, _ := mem.liveCount()
+				freed = n == 0
+			} else {
+				freed = store.VFBufferedRecords(hs, 0) == 0
+			}
+			if !freed {
+				time.Sleep(time.Millisecond)
+			}
+		}
+		if !freed {
+			inconc("the flush did not free the published record while the appender was parked")
+		}
+		ta.Release()
+		wait(2)
 	}
 	sched.ReleaseAll()
 	hooks.SetPoint(nil)
 	hooks.WaitQuiescent(vfWatchdog)
+	// accounting at quiescence (as in the random-schedule histories)
+	store.VFFlush(hs, true)
+	hooks.WaitQuiescent(vfWatchdog)
+	if !cmem.DBRL.IsZero() {
+		res.Violate(id, "c04:accounting-not-zero", fmt.Sprintf("targeted ordering %s: after the ordering and a forced flush the buffer counters are not zero: get %+v set %+v flush %+v alloc %+v", kind, cmem.DBRL.GetData, cmem.DBRL.SetData, cmem.DBRL.FlushData, *cmem.DBRL.AllocRL), info)
+	}
 	hist = append(hist, main.ops...)
 	fin := &vfClient{hs: hs, id: 99}
 	keys := map[string]bool{}
